@@ -25,6 +25,9 @@ def run(chk):
         for k in range(0, n, 997):
             nearly[k:k + 6] = b'zzzzzz'[:max(0, min(6, n - k))]
         contents.append(('nearly-random-%d' % n, bytes(nearly)))
+    # small nearly incompressible inputs: the compressed form lands within a few bytes of the raw size
+    for i in range(400 if thorough else 160):
+        contents.append(('weak-skew', encgen.weak_skew(rng, 1100 + rng.below(2000), 0.10 + 0.30 * rng.below(1000) / 1000.0)))
     contents += general_contents(rng, 80 if thorough else 30)
     lines, meta = [], []
     for kind, d in contents:
